@@ -495,7 +495,20 @@ pub fn sgr(rng: &mut Rng, out: &mut Vec<u8>) {
     out.push(b'm');
 }
 
+/// Sequences real programs emit (cursor movement, erase, modes, resets, charset selection,
+/// hyperlinks, titles): code that special-cases one of them meets it here.
+const REAL_WORLD: [&[u8]; 40] = [
+    b"\x1bc", b"\x1b[!p", b"\x1b7", b"\x1b8", b"\x1bD", b"\x1bE", b"\x1bM", b"\x1b=", b"\x1b>", b"\x1b(B", b"\x1b)0", b"\x1b#8",
+    b"\x1b[H", b"\x1b[2J", b"\x1b[K", b"\x1b[1K", b"\x1b[J", b"\x1b[1;1H", b"\x1b[10;20H", b"\x1b[A", b"\x1b[2B", b"\x1b[3C", b"\x1b[4D",
+    b"\x1b[?25l", b"\x1b[?25h", b"\x1b[?1049h", b"\x1b[?1049l", b"\x1b[?2004h", b"\x1b[6n", b"\x1b[s", b"\x1b[u", b"\x1b[1;24r", b"\x1b[0 q",
+    b"\x1b]8;;https://example.com\x1b\\", b"\x1b]8;;\x1b\\", b"\x1b]0;title\x07", b"\x1b]2;t\x1b\\", b"\x1b]52;c;aGk=\x07", b"\x1bP+q544e\x1b\\", b"\x1b[59m",
+];
+
 fn csi(rng: &mut Rng, out: &mut Vec<u8>) {
+    if rng.chance(1, 5) {
+        out.extend_from_slice(*rng.pick(&REAL_WORLD[..]));
+        return;
+    }
     out.extend_from_slice(b"\x1b[");
     if rng.chance(1, 4) {
         out.push(*rng.pick(b"?><="));
@@ -526,6 +539,10 @@ fn csi(rng: &mut Rng, out: &mut Vec<u8>) {
 }
 
 fn esc(rng: &mut Rng, out: &mut Vec<u8>) {
+    if rng.chance(1, 4) {
+        out.extend_from_slice(*rng.pick(&REAL_WORLD[..12]));
+        return;
+    }
     out.push(0x1b);
     let ninter = match rng.below(6) {
         0..=3 => 0,
